@@ -20,6 +20,8 @@ pub(super) struct MulAddFusion<F> {
     use_counts: HashMap<WitnessId, usize>,
     defs: HashMap<WitnessId, IndexedDef<F>>,
     backwards_computed: HashMap<WitnessId, usize>,
+    /// Number of ops that write each witness as an output (connect can alias several).
+    out_writers: HashMap<WitnessId, usize>,
 }
 
 impl<F: Field> MulAddFusion<F> {
@@ -29,6 +31,7 @@ impl<F: Field> MulAddFusion<F> {
             use_counts: HashMap::new(),
             defs: HashMap::with_capacity(ops.len()),
             backwards_computed: HashMap::new(),
+            out_writers: HashMap::new(),
         };
         fusion.scan_use_counts(ops);
         fusion.scan_defs(ops);
@@ -99,6 +102,21 @@ impl<F: Field> MulAddFusion<F> {
 
     fn scan_defs(&mut self, ops: &[Op<F>]) {
         for (idx, op) in ops.iter().enumerate() {
+            match op {
+                Op::Const { out, .. } | Op::Public { out, .. } | Op::Alu { out, .. } => {
+                    *self.out_writers.entry(*out).or_default() += 1;
+                }
+                Op::Hint { outputs, .. } => {
+                    for &id in outputs {
+                        *self.out_writers.entry(id).or_default() += 1;
+                    }
+                }
+                Op::NonPrimitiveOpWithExecutor { outputs, .. } => {
+                    for &id in outputs.iter().flatten() {
+                        *self.out_writers.entry(id).or_default() += 1;
+                    }
+                }
+            }
             match op {
                 Op::Const { out, val } => {
                     // Always insert consts (they win over any prior def).
@@ -200,6 +218,13 @@ impl<F: Field> MulAddFusion<F> {
 
         // Single-use, non-const mul
         if self.uses(&mul_result) != 1 || self.is_const(&mul_result) {
+            return None;
+        }
+
+        // The fused op no longer constrains `mul_result`. That is only sound when the mul is
+        // its sole writer (not aliased through `connect` to a public input, a constant or
+        // another op's output) and is emitted before the add that consumes it.
+        if self.out_writers.get(&mul_result).copied().unwrap_or(0) != 1 || mul_idx >= add_idx {
             return None;
         }
 
